@@ -1436,6 +1436,13 @@ func (d *Data) storeAndUpdate(ctx *datastore.VersionedCtx, keyStr string, newDat
 	if !found {
 		origData = nil
 	}
+	for field, value := range newData {
+		if strings.HasSuffix(field, "_user") || strings.HasSuffix(field, "_time") {
+			if _, isString := value.(string); !isString && value != nil {
+				return fmt.Errorf("field %q must be a string, got %v", field, value)
+			}
+		}
+	}
 	if _, found := newData["bodyid_user"]; found {
 		return fmt.Errorf("'bodyid_user' field not allowed")
 	}
@@ -1464,7 +1471,9 @@ func (d *Data) storeAndUpdate(ctx *datastore.VersionedCtx, keyStr string, newDat
 			mdb.fields[field]++
 			if strings.HasSuffix(field, "_time") {
 				rootField := field[:len(field)-5]
-				mdb.fieldTimes[rootField] = newData[field].(string)
+				if timestamp, isString := newData[field].(string); isString {
+					mdb.fieldTimes[rootField] = timestamp
+				}
 			}
 		}
 		mdb.addBodyID(bodyid)
